@@ -86,7 +86,7 @@ def main(argv):
     tests = "--tests" in argv
     mdir = os.path.join(VERIF, "mutants")
     if ids == "all":
-        pids = sorted(f[:-5] for f in os.listdir(mdir) if f.endswith(".json"))
+        pids = sorted(f[:-5] for f in os.listdir(mdir) if f.endswith(".json") and f[0] == "C" and f[1:3].isdigit())
     else:
         pids = [p.upper() for p in ids.split(",")]
     work = []
